@@ -20,6 +20,7 @@ LEVEL_TEXT = ("scenarios: single optimizer step, evaluator step, three-step sequ
 LEVEL_NOTE = "trusted: automaton and latch model in this file; the event at which a handler raises may reach fewer parties; event-raised aborts inside evaluator steps are recorded but not judged (outside the quantifier)"
 ANCHOR_FILES = ["src/ropt/plan/_plan.py", "src/ropt/plan/_context.py", "src/ropt/plugins/plan/optimizer.py", "src/ropt/plugins/plan/evaluator.py", "src/ropt/optimization/_optimizer.py",
                 "src/ropt/plan/_basic_optimizer.py"]
+EXECUTION_COUNTERS = ["abort_runs.observer", "abort_runs.handler", "abort_runs.evaluator", "basic_optimizer_abort_runs"]   # executions of the oracle inside the cases (reported as coverage.evaluations)
 RULE = ("case = (scenario variant, injector kind); inside: every abort index; a run is non-trivial if the abort was actually raised; distinct key = (case, index); "
         "monitor_counters: runs per injector, events and deliveries checked")
 ASSUMPTIONS = ["abort = OptimizationAborted(USER_ABORT) raised by user code (observer, handler or evaluator), as BasicOptimizer.set_abort_callback does"]
